@@ -104,9 +104,30 @@ FAMILY = Fam(PID, "compare", "compare-run", "h_compare", ["h_compare.cpp"], body
 FAMILY.monitor = lambda impl, obs: monitor(getattr(FAMILY, "raw", impl), obs)
 
 
+def ge_probe():
+    """does `a() >= b()` compile for 2-D arrays?"""
+    import os
+    rc, out, err = core.sh(["g++", "-std=c++17", "-fsyntax-only", "-I" + core.INCLUDE,
+                            os.path.join(core.VERIF, "harness", "c07_ge_probe.cpp")], timeout=300)
+    return rc == 0
+
+
 def run(tier, seed, replay=None):
+    import os
     res = core.Result(PID, tier, seed, level="proof")
     fam = FAMILY
+    has_ge = ge_probe()
+    if has_ge:
+        fam.flags = ("-DC07_HAS_GE",)
+        os.environ["C07_HAS_GE"] = "1"
+    else:
+        kf = core.match_known(PID, {"harness": "h_compare", "found_by": "api-gap", "operator": "ge", "rank": ">=2"})
+        if kf:
+            res.known_finding(kf)
+        else:
+            path = core.write_replay(PID, open(os.path.join(core.VERIF, "harness", "c07_ge_probe.cpp")).read(),
+                                     {"property": PID, "found-by": "build:operator>= missing for rank >= 2"})
+            res.violation(path, "operator>= does not compile for rank >= 2")
     coq = fam.prepare(res)
     if coq is None:
         return res.finish()
@@ -116,7 +137,7 @@ def run(tier, seed, replay=None):
     count = 4000 if tier == "quick" else 80000
     prog_c = fam.corpus()
     obs_c = fam.model_run(prog_c) if prog_c else ""
-    prog_g, obs_g, dist = fam.generate(seed, count, prefix="c")
+    prog_g, obs_g, dist = fam.generate(seed, count, prefix="c", extra=(["--has-ge"] if has_ge else []))
     obs_g = normalise(obs_g, empties(obs_g))
     prog_text, obs_text = prog_c + prog_g, obs_c + obs_g
     impl_text, crashes = fam.impl_run(prog_text)
